@@ -1,6 +1,8 @@
 package PKG
 
 import (
+	"math"
+
 	"github.com/bmeg/grip/gdbi"
 )
 
@@ -16,9 +18,17 @@ func VerifH_C13_serializer() {
 	n := vChoice("n", 2*W+2) // 0 .. 2W+1
 	in := make(chan gdbi.Traveler, n+1)
 	counts := make([]uint32, n)
+	// one item (or none) carries an arbitrary double, including NaN and the
+	// infinities, which encoding/json refuses to encode
+	bad := vChoice("bad", n+1)
+	x := vNondetFloat64("x")
 	for i := 0; i < n; i++ {
 		counts[i] = vNondetUint32("c" + string(rune('0'+i)))
-		in <- &gdbi.BaseTraveler{Count: counts[i]}
+		tr := &gdbi.BaseTraveler{Count: counts[i]}
+		if i == bad {
+			tr.Current = &gdbi.DataElement{ID: "v", Data: map[string]interface{}{"x": x}}
+		}
+		in <- tr
 	}
 	close(in)
 	var out []gdbi.Traveler
@@ -26,7 +36,13 @@ func VerifH_C13_serializer() {
 		out = append(out, t)
 	}
 	vAssert("C13.serializer.length", len(out) == n)
+	vKnownFor("C13/serializer-blanks-unencodable-item", math.IsNaN(x) || math.IsInf(x, 0), "C13.serializer.unencodable-item-kept")
 	for i := 0; i < n && i < len(out); i++ {
+		if i == bad {
+			// its slot is kept whatever happens to the payload
+			vAssert("C13.serializer.unencodable-item-kept", out[i].GetCount() == counts[i])
+			continue
+		}
 		vAssert("C13.serializer.order", out[i].GetCount() == counts[i])
 	}
 	vAssert("C13.serializer.no-goroutine-left", vBlockedGoroutines() == 0)
